@@ -342,6 +342,7 @@ func (bt *Batcher) MenuExit(w io.Writer) (int, error) {
 	}
 	bt.inMenu = false
 	b := bt.menuProcessor.ToLines()
+	bt.menuProcessor.items = nil
 	return w.Write(b)
 }
 
